@@ -29,7 +29,10 @@ TRUSTED = ["numpy: zeros / column assignment / sum(axis=0) / dot as used by simu
            "session ids identify EV objects; a network keeps its EVSEs in a dict (station ids distinct)",
            "IEEE-754 rounding: the ledger equalities hold exactly over an ordered field, within 1e-9 in doubles "
            "(exactly on the dyadic stream V=1000, period=60)"]
-ASSUMPTIONS = ["station ids pairwise distinct (StationsNodup); the run has not raised (a raise inside update_pilots "
+ASSUMPTIONS = ["the theorems and the model cover the plain ChargingNetwork; for the contrib StochasticNetwork (waiting queue, random "
+               "space assignment, early departure in the post-charging hook) the ledger is checked by the implementation-only oracle, "
+               "not proved: lean/AcnModel/StochasticLoop.lean (C19) has the loop without energies",
+               "station ids pairwise distinct (StationsNodup); the run has not raised (a raise inside update_pilots "
                "leaves earlier stations charged but nothing recorded — outside the property, covered by the correspondence)",
                "occupancy is what the network shows at post_charging_update (the model's occLog); under C01's Valid this is "
                "arrival <= t < departure, which the oracle uses directly"]
@@ -39,6 +42,8 @@ RULE = ("whole simulations through core.simcase: 1-6 stations of mixed EVSE clas
         "requests <= 12 kWh, scripted multi-period schedules over random station subsets (vacant stations addressed, pilots "
         "above the battery's maximum power), real algorithms (oracle only), malformed stream (aborting runs: correspondence "
         "only); thorough adds every layout of <= 3 sessions on <= 2 stations within horizon 5 with pilots from {0, 8, 40}; "
+        "a stochastic-network stream (real contrib StochasticNetwork, early_departure on/off, more simultaneous sessions than "
+        "stations, small requests, seeded `random`; ORACLE ONLY, rows attributed to sessions by the occupancy at update_pilots); "
         "plus an exact stream (V=1000, period=60, dyadic pilots and batteries) checked with ZERO slack; "
         "non-trivial = run completed, >= 2 sessions received energy and some station was reused or addressed while vacant; "
         "distinct by hash of the case")
@@ -189,14 +194,67 @@ def exhaustive():
     return out
 
 
+def gen_stochastic(rng):
+    """contrib StochasticNetwork (random space assignment, waiting queue, optional early departure) inside the
+    real Simulator: more simultaneous sessions than stations, small requests so that EVs finish while others
+    wait; `random` is seeded from the case.  Oracle only (the Sim model has no waiting queue)."""
+    ns = rng.randint(1, 3)
+    exact = rng.random() < 0.3
+    if exact:
+        stations = [_st(i, 1000, {"t": "cont", "min": 0, "max": 32}) for i in range(ns)]
+        period = 60
+    else:
+        stations = [_st(i, rng.choice([208, 240, 120, 277.5]), {"t": "cont", "min": 0, "max": rng.choice([32, 80])}) for i in range(ns)]
+        period = rng.choice([1, 5, 15, 60])
+    nsess = rng.randint(ns + 1, ns + 7)
+    sessions = []
+    for k in range(nsess):
+        arr = rng.choice([0, 0, 0, 1, 1, 2, 3, 4])
+        dep = arr + rng.choice([2, 3, 4, 6, 8])
+        if exact:
+            cap = rng.choice([16.0, 64.0])
+            batt = _bi(cap, rng.choice([0.0, 1.0, cap / 2]), rng.choice([2.0, 4.0, 8.0]))
+            req = rng.choice([0.5, 1.0, 2.0, 4.0, 16.0])
+        else:
+            batt = I_gen_battery(rng)
+            batt["cap"] = rng.choice([40, 100])
+            batt["init"] = round(rng.uniform(0, 20), 3)
+            req = rng.choice([round(rng.uniform(0.01, 0.4), 3), round(rng.uniform(0.2, 2.0), 3), 30.0])
+        # the nominal station is ignored by the network (it draws a free one), so any registered id will do
+        sessions.append(_s(f"q{k}", rng.choice(stations)["id"], arr, dep, req, batt))
+    last = max(s["departure"] for s in sessions)
+
+    def sched():
+        n = rng.choice([1, 1, 2, 3])
+        pil = EXACT_PILOTS[3:8] if exact else [8.0, 16.0, 32.0, 6.5, 24.0, 0.0]
+        sub = [st for st in stations if rng.random() < 0.9] or [stations[0]]
+        return [[st["id"], [rng.choice(pil) for _ in range(n)]] for st in sub]
+
+    script = [{"t": t, "sched": sched()} for t in range(last + 1) if rng.random() < 0.3]
+    c = {"network": "stochastic", "early_departure": rng.random() < 0.7, "rand_seed": rng.randrange(1 << 30),
+         "stations": stations, "constraint": None, "sessions": sessions, "recomputes": [], "period": period,
+         "max_recompute": rng.choice([1, 1, 2, None]), "noise": [round(rng.gauss(0, 1.0), 4) for _ in range(3)],
+         "sched": {"type": "scripted", "default": sched(), "script": script}}
+    if exact:
+        c["exact"] = True
+        c["noise"] = []
+    return c
+
+
+def I_gen_battery(rng):
+    return S.gen_battery(rng)
+
+
 def generate(rng, n, tier):
     out = []
     if tier == "thorough":
         out.extend(exhaustive())
     for i in range(n):
         r = i % 12
-        if r in (0, 1, 2):
+        if r in (0, 1):
             out.append(gen_exact(rng))
+        elif r in (2, 7, 8):
+            out.append(gen_stochastic(rng))
         elif r == 3:
             out.append(S.gen_case(rng, malformed=True))
         elif r == 4:
@@ -226,14 +284,50 @@ def _batt_json(ev):
     return {"charge": float(b["_current_charge"]), "init": float(b["_init_charge"])}
 
 
+_STOCH_CLS = {}
+
+
+def _stoch_cls(early):
+    """StochasticNetwork that records, through the public `update_pilots`, who is connected where at the moment
+    the pilots of a period are applied (= who is charged in that period)."""
+    if early not in _STOCH_CLS:
+        from acnportal.contrib.acnsim.network import StochasticNetwork
+
+        class SnapStochastic(StochasticNetwork):
+            def __init__(self, *a, **k):
+                super().__init__(*a, early_departure=early, **k)
+                self.occ_log = []
+
+            def update_pilots(self, pilots, i, period):
+                self.occ_log.append([(e.ev.session_id if e.ev is not None else None) for e in self._EVSEs.values()])
+                return super().update_pilots(pilots, i, period)
+
+        _STOCH_CLS[early] = SnapStochastic
+    return _STOCH_CLS[early]
+
+
 def run_impl(case):
     from acnportal import acnsim
+    stoch = case.get("network") == "stochastic"
     with S.noise_stream(case.get("noise", [])) as ns:
-        sim, ctx = S.build_sim(case)
-        err = S.run_sim(sim)
+        if stoch:
+            import random as _random
+            st0 = _random.getstate()
+            _random.seed(case["rand_seed"])
+            try:
+                sim, ctx = S.build_sim(case, S.Hooks(network_cls=_stoch_cls(bool(case.get("early_departure")))))
+                err = S.run_sim(sim)
+            finally:
+                _random.setstate(st0)
+        else:
+            sim, ctx = S.build_sim(case)
+            err = S.run_sim(sim)
         obs = S.observe(sim, ctx, err)
         obs["noise_draws"] = ns["k"]
     net = sim.network
+    if stoch:
+        obs["stoch"] = {"swaps": int(net.swaps), "early_unplug": int(net.early_unplug), "never_charged": int(net.never_charged),
+                        "waiting_end": len(net.waiting_queue)}
     volts = net.voltages
     obs["voltages"] = [float(volts[s]) for s in net.station_ids]
     obs["station_ids"] = list(net.station_ids)
@@ -253,6 +347,8 @@ def run_impl(case):
 
 
 def model_request(case):
+    if case.get("network") == "stochastic":
+        return None             # oracle only: the Sim model composes the run loop with a plain ChargingNetwork
     return S.model_request(case)
 
 
@@ -297,7 +393,8 @@ def _eq(a, b, exact):
 def oracle(case, obs):
     if obs.get("err") is not None:
         return []                       # the run raised: partial period, outside the property
-    if not S.is_valid_layout(case):
+    stoch = case.get("network") == "stochastic"
+    if not stoch and not S.is_valid_layout(case):
         return []
     exact = bool(case.get("exact"))
     fails = []
@@ -307,6 +404,31 @@ def oracle(case, obs):
     T = obs["period"]
     width = len(rates[0]) if rates else 0
     hist = obs["hist"]
+    if stoch:
+        # (i') a session may sit on any station and may be swapped out early: rows are attributed to sessions by
+        # the occupancy at the moment the pilots of each period were applied
+        occ = obs.get("occ", [])
+        got = {}
+        for t, row in enumerate(occ):
+            for i, who in enumerate(row):
+                if who is not None and t < width:
+                    got[who] = got.get(who, 0.0) + (rates[i][t] * V[i]) / 1000 * (T / 60)
+        for h in hist:
+            acc = got.get(h["session"], 0.0)
+            if not _eq(acc, h["delivered"], exact):
+                fails.append({"kind": "session_energy", "detail": f"session {h['session']}: sum over the periods and stations it was "
+                              f"connected to of rates*V/1000*period/60 = {acc!r}, energy_delivered = {h['delivered']!r}"})
+            gain = h["charge"] - h["init"]
+            if not _eq(gain, h["delivered"], exact):
+                fails.append({"kind": "battery_gain", "detail": f"session {h['session']}: battery gain {gain!r} but energy_delivered = {h['delivered']!r}"})
+        if len(occ) != obs["iter"]:
+            fails.append({"kind": "occupancy_snapshots", "detail": f"{len(occ)} snapshots for {obs['iter']} periods"})
+        hist = []                      # (i)/(ii) by nominal station do not apply; (ii) by snapshot, (iii), (iv) below do
+        for i in range(len(sts)):
+            for t in range(len(occ), width):
+                if rates[i][t] != 0:
+                    fails.append({"kind": "rate_when_vacant", "detail": f"charging_rates[{sts[i]}][{t}] = {rates[i][t]!r} in a period that was never simulated"})
+                    break
     # (i) per session: sum over its connection interval of its station's row = energy_delivered = battery gain
     for h in hist:
         if h["station"] not in sts:
@@ -366,7 +488,7 @@ def oracle(case, obs):
         fails.append({"kind": "total_energy", "detail": f"total_energy_delivered = {obs['total_energy']!r}, "
                       f"sum_t sum_st rates*V/1000*period/60 = {mine!r}"})
     s_del = 0.0
-    for h in hist:
+    for h in obs["hist"]:
         s_del += h["delivered"]
     if not _eq(s_del, obs["total_energy"], exact):
         fails.append({"kind": "total_energy", "detail": f"total_energy_delivered = {obs['total_energy']!r}, sum of energy_delivered = {s_del!r}"})
@@ -395,6 +517,9 @@ def _charged(obs):
 
 
 def nontrivial(case, obs):
+    if case.get("network") == "stochastic":
+        st = obs.get("stoch", {})
+        return obs.get("err") is None and _charged(obs) >= 2 and (st.get("swaps", 0) > 0 or st.get("early_unplug", 0) > 0)
     return (obs.get("err") is None and S.is_valid_layout(case) and _charged(obs) >= 2
             and (_b2b(case) > 0 or _vacant_addressed(case, obs)))
 
@@ -404,11 +529,20 @@ def features(case, obs):
     f = [f"stations={len(case['stations'])}",
          "sessions=" + ("0" if n == 0 else "1-3" if n <= 3 else "4-8" if n <= 8 else "9-25"),
          f"sched={case['sched']['type']}", f"period={case['period']}", f"err={obs.get('err')}",
-         "stream=" + ("exact" if case.get("exact") else "malformed" if case.get("malformed") else "structured"),
+         "stream=" + ("stochastic" if case.get("network") == "stochastic" else "exact" if case.get("exact") else "malformed" if case.get("malformed") else "structured"),
          "charged_sessions=" + ("0" if _charged(obs) == 0 else "1" if _charged(obs) == 1 else "2-4" if _charged(obs) <= 4 else "5+"),
          "back_to_back=" + ("0" if _b2b(case) == 0 else "1+")]
     if case.get("exhaustive"):
         f.append("exhaustive_small_scope")
+    if case.get("network") == "stochastic":
+        st = obs.get("stoch", {})
+        f.append("network=stochastic/early_departure=" + str(bool(case.get("early_departure"))))
+        f.append("stoch_swaps=" + ("0" if st.get("swaps", 0) == 0 else "1-2" if st.get("swaps", 0) <= 2 else "3+"))
+        f.append("stoch_early_unplug=" + ("0" if st.get("early_unplug", 0) == 0 else "1-2" if st.get("early_unplug", 0) <= 2 else "3+"))
+        if st.get("never_charged", 0) > 0:
+            f.append("stoch_left_while_waiting")
+    else:
+        f.append("network=plain")
     if obs.get("err") is None:
         if _vacant_addressed(case, obs):
             f.append("vacant_station_addressed")
